@@ -27,7 +27,7 @@ func (n *NameTrie[V]) ExactMatch(name enc.Name) *NameTrie[V] {
 	if len(name) <= n.dep {
 		return n
 	}
-	c := name[n.dep].String()
+	c := name[n.dep].CanonicalString()
 	if ch, ok := n.chd[c]; ok {
 		return ch.ExactMatch(name)
 	} else {
@@ -41,7 +41,7 @@ func (n *NameTrie[V]) PrefixMatch(name enc.Name) *NameTrie[V] {
 	if len(name) <= n.dep {
 		return n
 	}
-	c := name[n.dep].String()
+	c := name[n.dep].CanonicalString()
 	if ch, ok := n.chd[c]; ok {
 		return ch.PrefixMatch(name)
 	} else {
@@ -68,7 +68,7 @@ func (n *NameTrie[V]) MatchAlways(name enc.Name) *NameTrie[V] {
 	if len(name) <= n.dep {
 		return n
 	}
-	c := name[n.dep].String()
+	c := name[n.dep].CanonicalString()
 	ch, ok := n.chd[c]
 	if !ok {
 		ch = newTrieNode(c, n)
@@ -82,7 +82,7 @@ func (n *NameTrie[V]) FirstSatisfyOrNew(name enc.Name, pred func(V) bool) *NameT
 	if len(name) <= n.dep || pred(n.val) {
 		return n
 	}
-	c := name[n.dep].String()
+	c := name[n.dep].CanonicalString()
 	ch, ok := n.chd[c]
 	if !ok {
 		ch = newTrieNode(c, n)
